@@ -222,6 +222,15 @@ def project(cfg, res):
             # the recorded arrays are padded with zeros; a grid starting at 0 is not used by the drivers
             bnds = rbins[:nb]
             psd = rpsd[:nb - 1]
+            # the model resets the whole size distribution (without recording it) when the precipitate became unstable
+            reset_step = bool(rec[2] != t)
+            skipmom = False
+            if reset_step:
+                if prev is not None and float(np.sum(prev["psd"][p])) == 0.0:
+                    bnds, psd = s["bounds"][p], s["psd"][p]     # nothing was there before: the statistics must describe the (empty) stored distribution
+                    nb = len(bnds)
+                else:
+                    skipmom = True                               # first step of the reset: the distribution the row describes was discarded
             K = len(psd)
             ctr = 0.5 * (bnds[:-1] + bnds[1:])
             rmax = float(bnds[-1])
@@ -229,10 +238,10 @@ def project(cfg, res):
             M0, M1, M3 = moment(psd, bnds, 0), moment(psd, bnds, 1), moment(psd, bnds, 3)
             rv = ratio[p] * volf[p]
             below = dens < m.constraints.minNucleateDensity
-            q = {"below": bool(below),
-                 "dens": cmp3(dens, M0, atol=TRUNC * K),
-                 "ravg": "eq" if below and ravg == 0 else cmp3(ravg * dens, M1, atol=TRUNC * K * rmax),
-                 "vf": "eq" if below and vf == 0 else cmp3(vf, min(rv * M3, 1.0), atol=rv * TRUNC * K * rmax ** 3),
+            q = {"below": bool(below), "resetstep": reset_step,
+                 "dens": "eq" if skipmom else cmp3(dens, M0, atol=TRUNC * K),
+                 "ravg": "eq" if (below and ravg == 0) or skipmom else cmp3(ravg * dens, M1, atol=TRUNC * K * rmax),
+                 "vf": "eq" if (below and vf == 0) or skipmom else cmp3(vf, min(rv * M3, 1.0), atol=rv * TRUNC * K * rmax ** 3),
                  "psdnonneg": bool(np.all(s["psd"][p] >= 0) and np.all(psd >= 0)),
                  "vfrange": bool(0.0 <= vf <= 1.0), "radnonneg": bool(ravg >= 0 and float(row["Rcrit"][p]) >= 0 and float(row["Rnuc"][p]) >= 0),
                  "dgsign": int(np.sign(row["drivingForce"][p])), "ratezero": bool(row["nucRate"][p] == 0),
@@ -243,13 +252,13 @@ def project(cfg, res):
             tab = (prev["xbeta"][p] if prev is not None else None)
             fc = np.array(row["fconc"][p], dtype=float)
             q["fconc"] = []
-            if tab is not None and len(tab) == nb and m.precipitateParameters[p].infinitePrecipitateDiffusion and cfg.get("iter", "euler") == "euler":
+            if tab is not None and len(tab) == nb and not reset_step and m.precipitateParameters[p].infinitePrecipitateDiffusion and cfg.get("iter", "euler") == "euler":
                 mid = 0.5 * (tab[:-1] + tab[1:])
                 for el in range(E):
                     expct = 0.0 if below else rv * moment(psd, bnds, 3, mid[:, el])
                     q["fconc"].append(cmp3(float(fc[el]), expct, atol=rv * TRUNC * K * rmax ** 3))
             # density law (Euler): M0(x_n) <= M0(stored PSD_{n-1}) + nucRate_{n-1} * dt
-            if prev is not None and cfg.get("iter", "euler") == "euler" and len(prev["psd"][p]) == K:
+            if prev is not None and cfg.get("iter", "euler") == "euler" and len(prev["psd"][p]) == K and not reset_step:
                 lhs = M0
                 rhs = float(np.sum(prev["psd"][p])) + float(prow["nucRate"][p]) * dt
                 c = cmp3(lhs, rhs, rtol=1e-9)
